@@ -53,10 +53,11 @@ func H_C18_scopeOps() {
 	ops := []string{"let", "set", "setorlet"}
 	op := ops[ndChoice("op", len(ops))]
 	declared := ndBool("declared")
-	declNil := ndBool("declaredNil") // the declared variable currently holds nil
+	declNil := ndBool("declaredNil")           // the declared variable currently holds nil
+	inVarMap := declared && ndBool("inVarMap") // ... and lives in the VarMap given to Execute
 	site := ndChoice("site", 4)
 	pre := ""
-	if declared {
+	if declared && !inVarMap {
 		pre = `{{ x := "outer" }}`
 		if declNil {
 			pre = `{{ x := nil }}`
@@ -83,6 +84,13 @@ func H_C18_scopeOps() {
 		set := hxSet(nil, files...)
 		vars := make(VarMap)
 		vars.Set("one", []int{1})
+		if inVarMap {
+			if declNil {
+				vars.Set("x", nil)
+			} else {
+				vars.Set("x", "outer")
+			}
+		}
 		vars.SetFunc("op", c18Op(op, "x", "new"))
 		out, err := hxExec(set, "/m.jet", vars, nil)
 		return out, err != nil
@@ -215,8 +223,14 @@ func H_C18_yieldBlock() {
 	if !known {
 		name = "nope"
 	}
+	// the block's definition may carry a context expression of its own: it is the context
+	// of the definition site only, not a default for yields
+	dflt := ""
+	if ndBool("defaultCtx") {
+		dflt = `"dctx" `
+	}
 	set := hxSet(nil,
-		"/lib.jet", `{{ block b() }}{{ count() }}[{{ . }}]{{ end }}`,
+		"/lib.jet", `{{ block b() `+dflt+`}}{{ count() }}[{{ . }}]{{ end }}`,
 		"/m.jet", `{{ import "/lib.jet" }}<{{ y() }}|{{ . }}>{{ include "/inc.jet" }}{{ range i, e := one }}<{{ y() }}|{{ . }}>{{ end }}`,
 		"/inc.jet", `{{ if true }}{{ z := 1 }}<{{ y() }}|{{ . }}>{{ end }}{{ isset(z) }}{{ range i, e := one }}{{ w := 2 }}{{ y() }}{{ end }}{{ isset(w) }}`,
 		"/s.jet", `{{ import "/lib.jet" }}<{{ yield b() ctxv }}|{{ . }}>{{ include "/sinc.jet" }}{{ range i, e := one }}<{{ yield b() ctxv }}|{{ . }}>{{ end }}`,
